@@ -363,6 +363,7 @@ def step (st : DState) (line : String) : DState × String :=
     match parseId 'W' L with
     | some L => if !(w.wOK L) then bad else (st, s!"ok r{w.rules L}")
     | none => bad
+  | ["cflag", _, _] => (st, "ok")   -- caching switched for one vertex class only: answers do not depend on it (C05)
   | "mut" :: _ => (st, "ok")        -- the caller edits a container it holds: nothing to do (C12)
   | ["sattr", v, a, val] =>
     -- `v.a<a> = <val>` : a user attribute is (re)assigned
